@@ -1,0 +1,60 @@
+//go:build verif
+
+// Contracts for package memtable, checked by /verif (govc). Ghost
+// declarations and comments only.
+package memtable
+
+import (
+	"reduction.dev/reduction/dkv/kv"
+	"reduction.dev/reduction/dkv/ziptree"
+)
+
+func forall(lo, hi int, f func(int) bool) bool {
+	for i := lo; i < hi; i++ {
+		if !f(i) {
+			return false
+		}
+	}
+	return true
+}
+
+// ghostNodeOf labels an entry handed out by a memtable with the tree node it
+// was made from (ghost: set when the entry is created, never executed).
+var ghostNodeOf func(e kv.Entry) *ziptree.Node
+
+//@ type List
+//@   guards tablesMu: tables
+//@   lockinv tablesMu: len(self.tables) >= 1 && forall(0, len(self.tables), func(j int) bool { return self.tables[j] != nil && self.tables[j].zt != nil })
+
+//@ func newEntryFromNode
+//@   property C07
+//@   trusted
+//@   requires node != nil
+//@   ensures result != nil && ghostNodeOf(kv.Entry(result)) == node
+
+//@ func MemTable.Get
+//@   property C07 C03
+//@   requires t.zt != nil
+//@   modifies nothing
+//@   ensures result1 == nil || result1 == kv.ErrNotFound
+//@   ensures (result1 == nil) == has(t.zt.view, string(key))
+//@   ensures result1 == nil ==> ghostNodeOf(result0) == t.zt.view[string(key)]
+
+//@ func List.tablesSnap
+//@   property C07
+//@   modifies nothing
+//@   ensures result == l.tables
+//@   ensures len(result) >= 1 && forall(0, len(result), func(j int) bool { return result[j] != nil && result[j].zt != nil })
+
+// List.Get: the NEWEST memtable holding the key answers (tables[len-1] is the
+// active one, smaller indices are older sealed tables).
+//@ func List.Get
+//@   property C07 C03
+//@   modifies nothing
+//@   ensures result1 == nil || result1 == kv.ErrNotFound
+//@   ensures (result1 == kv.ErrNotFound) == forall(0, len(l.tables), func(j int) bool { return !has(l.tables[j].zt.view, string(key)) })
+//@   ensures result1 == nil ==> exists(0, len(l.tables), func(j int) bool {
+//@           return has(l.tables[j].zt.view, string(key)) && ghostNodeOf(result0) == l.tables[j].zt.view[string(key)] &&
+//@                  forall(j+1, len(l.tables), func(m int) bool { return !has(l.tables[m].zt.view, string(key)) }) })
+//@   loop 0:
+//@     invariant forall(0, idx_, func(j int) bool { return !has(coll_[j].zt.view, string(key)) })
